@@ -630,7 +630,7 @@ def final_checks(S, idx):
     return
 
 
-PROPS = ["C01", "C02", "C03", "C04", "C05", "C06", "C07", "C08", "C10", "C11", "C12", "C13", "C14", "C15", "C16", "C17"]
+PROPS = ["C01", "C02", "C03", "C04", "C05", "C06", "C07", "C08", "C09", "C10", "C11", "C12", "C13", "C14", "C15", "C16", "C17"]
 
 
 def violations(tr):
@@ -640,6 +640,7 @@ def violations(tr):
     except Exception as ex:  # a malformed trace is the correspondence check's business, not ours
         return {"_error": [repr(ex)]}
     c16_broadcast(tr, S)
+    c09_broker(tr, S)
     return dict(S.v)
 
 
@@ -681,3 +682,143 @@ def c16_broadcast(tr, S):
                 exp.remove(g)
             else:
                 S.bad("C16", f"a broadcast of a{b['a']} for type {b['ty']} was handled by a{g}, which is not a (remaining) child under that type", b["idx"])
+
+
+BROKER, TOPIC_OP, TOPIC_RET = 44, 45, 46
+
+
+def c09_broker(tr, S):
+    """C09 on the implementation's trace: client-side stamps of publish / subscribe / unsubscribe,
+    the broker's probes (table, fan-out windows, held senders) and the handling of clones."""
+    if not any(e[0] in (TOPIC_OP, PUBCOPY, BROKER) for e in tr):
+        return
+    bad = lambda msg, idx: S.bad("C09", msg, idx)
+    hk = {}                      # handle -> (actor, strong?)
+    strong = defaultdict(int)
+    dead = {}                    # actor -> index of TaskEnd
+    tops = {}                    # o -> dict(kind, topic, x, begin, ret, ok, c)
+    table = defaultdict(list)    # broker -> subscribers in its table
+    fan = {}                     # broker -> dict(begin, table0, must, held, copies)
+    copy_of = {}                 # clone o' -> (actor, src, topic)
+    seen = defaultdict(list)     # (actor, topic) -> [src] in handling order
+    complete = any(e[0] == QUIESCE for e in tr) and not any(e[0] == BUDGET for e in tr)
+    for idx, e in enumerate(tr):
+        t = e[0]
+        if t == HANDLE:
+            hk[e[1]] = (e[2], e[3] in STRONG)
+            if e[3] in STRONG:
+                strong[e[2]] += 1
+        elif t == DROP:
+            a, st = hk.pop(e[1], (None, False))
+            if st:
+                strong[a] -= 1
+        elif t == TASKEND:
+            dead[e[1]] = idx
+        elif t == TOPIC_OP:
+            tops[e[1]] = {"c": e[2], "kind": e[3], "topic": e[4], "x": e[5], "begin": idx, "ret": None, "ok": None}
+        elif t == TOPIC_RET:
+            if e[1] in tops:
+                tops[e[1]]["ret"] = idx
+                tops[e[1]]["ok"] = bool(e[2])
+        elif t == BROKER:
+            b, what, a, h = e[1], e[2], e[3], e[4]
+            if what == 4:
+                if a not in table[b]:
+                    table[b].append(a)
+            elif what == 5:
+                if a in table[b]:
+                    table[b].remove(a)
+            elif what == 0:
+                if b in fan:
+                    bad(f"broker a{b} starts a fan-out while another one is under way", idx)
+                src = e[3] - 1 if e[3] > 0 else None
+                p = tops.get(src)
+                must = []
+                if p is not None:
+                    # subscription completed before the publish began, nobody asked to unsubscribe it so far,
+                    # task running and strongly held right now: must be served by this fan-out
+                    for q in tops.values():
+                        if q["kind"] == 1 and q["topic"] == p["topic"] and q["ok"] and q["ret"] is not None and q["ret"] < p["begin"]:
+                            x = q["x"]
+                            if x in dead or strong[x] <= 0 or x in must:
+                                continue
+                            if any(u["kind"] == 2 and u["topic"] == p["topic"] and u["x"] == x for u in tops.values()):
+                                continue
+                            must.append(x)
+                fan[b] = {"begin": idx, "must": must, "held": [], "copies": defaultdict(int), "src": src}
+            elif what == 1 and b in fan:
+                fan[b]["held"].append(a)
+            elif what == 3 and b in fan:
+                f = fan.pop(b)
+                for x in f["must"]:
+                    if f["copies"][x] == 0:
+                        bad(f"a{x}, whose subscription completed before publication o{f['src']} began and which is running and strongly held, was not served by the fan-out of that publication (events {f['begin']}..{idx})", idx)
+                for x, n in f["copies"].items():
+                    if n > 1:
+                        bad(f"subscriber a{x} was sent {n} clones of one publication by broker a{b}", idx)
+        elif t == PUBCOPY:
+            topic, o2, v, src = e[1], e[2], e[3], e[4]
+            b, h = (e[5], e[6]) if len(e) > 6 else (None, None)
+            a = hk.get(h, (None, False))[0] if h is not None else None
+            copy_of[o2] = (a, src, topic)
+            if b in fan and a is not None:
+                f = fan[b]
+                f["copies"][a] += 1
+                if f["src"] not in (None, src):
+                    bad(f"one fan-out of broker a{b} clones two different publications (o{f['src']} and o{src})", idx)
+                f["src"] = src
+            p = tops.get(src)
+            if p is not None and a is not None:
+                subs = [q for q in tops.values() if q["kind"] == 1 and q["topic"] == topic and q["x"] == a and q["begin"] < idx]
+                if not subs:
+                    bad(f"publication o{src} on topic {topic} is delivered to a{a}, which never subscribed to it", idx)
+                else:
+                    last_sub_ret = max((q["ret"] if q["ret"] is not None else 10 ** 9) for q in subs)
+                    for u in tops.values():
+                        if u["kind"] == 2 and u["topic"] == topic and u["x"] == a and u["ret"] is not None and u["ok"] \
+                                and u["ret"] < p["begin"] and last_sub_ret < u["begin"]:
+                            bad(f"publication o{src} is delivered to a{a} although its unsubscribe (o{[k for k, q in tops.items() if q is u][0]}) completed before the publish began", idx)
+                            break
+        elif t == HBEGIN and e[2] in copy_of:
+            a, src, topic = copy_of[e[2]]
+            if a is not None and a != e[1]:
+                bad(f"clone o{e[2]} made for a{a} is handled by a{e[1]}", idx)
+            if src in seen[(e[1], topic)]:
+                bad(f"a{e[1]} handles publication o{src} twice", idx)
+            seen[(e[1], topic)].append(src)
+    # one common order that extends every publisher's own order
+    pos = {}
+    for (a, topic), l in seen.items():
+        for i, src in enumerate(l):
+            pos[(a, topic, src)] = i
+    keys = list(seen.keys())
+    for i in range(len(keys)):
+        for j in range(i + 1, len(keys)):
+            (a1, t1), (a2, t2) = keys[i], keys[j]
+            if t1 != t2:
+                continue
+            common = [x for x in seen[keys[i]] if x in seen[keys[j]]]
+            other = [x for x in seen[keys[j]] if x in seen[keys[i]]]
+            if common != other:
+                bad(f"a{a1} and a{a2} see the publications of topic {t1} in different orders: {common} vs {other}", len(tr) - 1)
+    for (a, topic), l in seen.items():
+        for i in range(len(l)):
+            for j in range(i + 1, len(l)):
+                p1, p2 = tops.get(l[i]), tops.get(l[j])
+                if p1 and p2 and p2["ret"] is not None and p2["ret"] < p1["begin"]:
+                    bad(f"a{a} handles publication o{l[i]} before o{l[j]}, although o{l[j]} had returned before o{l[i]} was published", len(tr) - 1)
+    # client-level completeness: subscribed (completed) before the publish began, never asked to unsubscribe,
+    # strongly held and running until the end of the run: must have handled it
+    if complete:
+        for o, p in tops.items():
+            if p["kind"] != 0 or not p["ok"]:
+                continue
+            for q in tops.values():
+                if q["kind"] == 1 and q["topic"] == p["topic"] and q["ok"] and q["ret"] is not None and q["ret"] < p["begin"]:
+                    a = q["x"]
+                    if a in dead or strong[a] <= 0:
+                        continue
+                    if any(u["kind"] == 2 and u["topic"] == p["topic"] and u["x"] == a for u in tops.values()):
+                        continue
+                    if o not in seen[(a, p["topic"])]:
+                        bad(f"a{a}, whose subscription to topic {p['topic']} completed before publication o{o} began and which is alive and held to the end, never handled it", len(tr) - 1)
